@@ -156,6 +156,18 @@ func (o *Origins) condFacts(c ssa.Value, truth bool, out *[]*Fact, depth int) {
 
 // condFact canonicalises "cond evaluates to truth".
 func (o *Origins) condFact(c ssa.Value, truth bool) *Fact {
+	// ok of a look-up in a position index of a list: "a matching element exists" (see indexMapSearch)
+	if ex, isEx := c.(*ssa.Extract); isEx && ex.Index == 1 {
+		if lk, isLk := ex.Tuple.(*ssa.Lookup); isLk {
+			if se := o.indexMapSearch(lk); se != nil {
+				zero := &Ex{K: "const", S: "0", Idx: -1}
+				if truth {
+					return &Fact{Kind: "cmp", Pos: true, Op: token.LEQ, A: zero, B: se, Cond: c}
+				}
+				return &Fact{Kind: "cmp", Pos: true, Op: token.LSS, A: se, B: zero, Cond: c}
+			}
+		}
+	}
 	switch x := c.(type) {
 	case *ssa.UnOp:
 		if x.Op == token.NOT {
